@@ -34,6 +34,7 @@ type c20Case struct {
 	Updates   []c20Update `json:"updates"`   // in arrival order
 	Dest      int         `json:"dest"`      // destination of the unicast data bundle (node index >= 1)
 	Demux     bool        `json:"demux"`     // address an application endpoint on the destination node instead of the node ID
+	TwoLinks  []int       `json:"two_links,omitempty"` // own neighbours that are connected over two convergence layers
 }
 
 func c20Name(i int) string {
@@ -53,17 +54,43 @@ func c20Body(c *vk.Ctx, cs c20Case) {
 	for _, n := range cs.Neighbors {
 		s.addPeer(c20Peer(n))
 	}
-	if cs.Broadcast == 1 {
+	for _, n := range cs.TwoLinks {
+		s.logf("neighbour n%d is connected over a second convergence layer as well", n)
+		s.addSecondLink(c20Peer(n))
+	}
+	// "broadcast link-state bundles go once to every peer"
+	broadcast := func() {
+		before := s.nSends()
 		s.logf("the node broadcasts its link state")
 		d.broadcast()
+		got := map[string]int{}
+		for _, x := range s.sendsSince(before) {
+			if w, err := vk.ReadBundle(x.Raw); err == nil && w.Primary.Dst.String() == dtlsrBroadcastAddress && w.Primary.Src.String() == vfNodeName {
+				got[x.Peer]++
+			}
+		}
+		for _, n := range cs.Neighbors {
+			pn := c20Peer(n)
+			if !s.connected(pn) {
+				continue
+			}
+			if got[pn] != 1 {
+				s.failf("c20.broadcast-not-once", "the node's link-state broadcast was handed %d times to the connected neighbour %s (two convergence layers: %v), expected once", got[pn], pn, s.connected(pn+"#2"))
+			}
+		}
+		if len(cs.TwoLinks) > 0 {
+			c.Class("broadcast with a neighbour connected over two convergence layers")
+		}
+	}
+	if cs.Broadcast == 1 {
+		broadcast()
 	}
 	for _, n := range cs.LostOwn {
 		s.logf("neighbour n%d disappears", n)
 		s.dropPeer(c20Peer(n))
 	}
 	if cs.Broadcast == 2 {
-		s.logf("the node broadcasts its link state")
-		d.broadcast()
+		broadcast()
 	}
 	// link-state updates from other nodes, in this order
 	type upd struct {
@@ -284,7 +311,15 @@ func c20Body(c *vk.Ctx, cs c20Case) {
 	for _, x := range s.sendsSince(before) {
 		if w, err := vk.ReadBundle(x.Raw); err == nil {
 			if p, _ := w.Payload(); bytes.Equal(p, payload) {
-				to = append(to, x.Peer)
+				dup := false
+				for _, y := range to {
+					if y == x.Peer {
+						dup = true // the same neighbour over its second convergence layer
+					}
+				}
+				if !dup {
+					to = append(to, x.Peer)
+				}
 			}
 		}
 	}
@@ -343,6 +378,11 @@ func genC20(t *rapid.T) c20Case {
 			cs.LostOwn = append(cs.LostOwn, nb)
 		}
 	}
+	for _, nb := range cs.Neighbors {
+		if rapid.IntRange(0, 5).Draw(t, "twolinks") == 0 {
+			cs.TwoLinks = append(cs.TwoLinks, nb)
+		}
+	}
 	// most of the time the data bundle is for a node that is no direct neighbour, and the neighbours tell about routes
 	if k < n && rapid.IntRange(0, 4).Draw(t, "fardest") > 0 {
 		cs.Dest = perm[k+rapid.IntRange(0, n-k-1).Draw(t, "destidx")]
@@ -396,6 +436,6 @@ func genC20(t *rapid.T) c20Case {
 
 func TestVerifC20Graphs(t *testing.T) {
 	u := vk.Unit{Property: "C20", Name: "c20.graphs", Quick: 900, Thorough: 30000,
-		Rule: "directed link-state graphs on up to 8 nodes: the node's own neighbours appear (and some disappear again 0/2/20 ms before the recomputation), other nodes' link state arrives as DTLSR-block bundles (0..8 updates, several per origin with distinct and equal timestamps, links live or lost 1 ms .. 2 h ago) in generated order; then the recompute job runs; oracle: (a) per origin the retained link state is the update with the greatest timestamp (first arrival among equals); (b) an independent Floyd-Warshall over the graph the node holds (observed state), evaluated for every millisecond in the bracket around the recomputation: the table has an entry exactly for the reachable nodes and every next hop is an own neighbour on a least-cost path; (c) a unicast bundle is handed only to the table's next hop and then released; non-trivial = graph with >= 1 lost link and >= 2 routes of distinct cost to some node; distinct by case hash"}
+		Rule: "directed link-state graphs on up to 8 nodes: the node's own neighbours appear (and some disappear again 0/2/20 ms before the recomputation), other nodes' link state arrives as DTLSR-block bundles (0..8 updates, several per origin with distinct and equal timestamps, links live or lost 1 ms .. 2 h ago) in generated order; then the recompute job runs; oracle: (a) per origin the retained link state is the update with the greatest timestamp (first arrival among equals); (b) an independent Floyd-Warshall over the graph the node holds (observed state), evaluated for every millisecond in the bracket around the recomputation: the table has an entry exactly for the reachable nodes and every next hop is an own neighbour on a least-cost path; (c) a unicast bundle is handed only to the table's next hop and then released; (d) the node's own link-state broadcast is handed exactly once to every connected neighbour, also to one connected over two convergence layers; non-trivial = graph with >= 1 lost link and >= 2 routes of distinct cost to some node; distinct by case hash"}
 	vk.Check(t, u, genC20, c20Body)
 }
